@@ -190,7 +190,7 @@ func scShutdown(r *Run) {
 				if !WithTimeout(r, 30*time.Second, func() { err = e.t.Close() }) {
 					st := tubes.VerifState(e.t)
 					class := "C16/close-does-not-return"
-					if st == "created" {
+					if st == "created" || !tubes.VerifInitiated(e.t) {
 						class += "/tube-never-initiated"
 					}
 					r.Violate(class, "%s.Close did not return within 30 simulated seconds (tube state %s, net=%d, dead since %v); goroutines:\n  %s", e.name, st, netMode, deathAt, BlockedSummary())
